@@ -186,6 +186,7 @@ fn huge_amounts(run: &Run, thorough: bool) {
 }
 
 pub fn run(run: &Run) {
+    run_std_genesis(run, if run.thorough() { 8 } else { 6 });
     huge_amounts(run, run.thorough());
     many_huge_requests(run, run.thorough());
     for sc in scenarios(run.thorough()) {
